@@ -535,6 +535,50 @@ Proof.
   split; [exact H1|now apply (Forall2_comp_rel E h)].
 Qed.
 
+(* ---- a constructor that raises --------------------------------------------------------------- *)
+Lemma raises_constr_of d : raises_constr (constr_of d) = dstate_raises d.
+Proof.
+  unfold raises_constr, constr_of, dstate_raises, raises_args, is_boom, boom. cbn [k_args].
+  destruct (optl (s_args d)) as [|[| | | s | | |] l]; reflexivity.
+Qed.
+
+Lemma raises_map l : existsb raises_constr (map constr_of l) = existsb dstate_raises l.
+Proof. induction l as [|d l IH]; cbn [map existsb]; [reflexivity|]. now rewrite raises_constr_of, IH. Qed.
+
+Lemma raising_dict_excuses E h d td :
+  dict_rel E h d td -> dstate_raises td = true -> dict_open E (h, d) = true.
+Proof.
+  intros [_ C] R. rewrite <- raises_constr_of in R. unfold check_constr in C.
+  destruct (slookup (d_type d) (c_ns E)); [|discriminate].
+  apply andb_true_iff in C as [C _]. apply andb_true_iff in C as [_ C].
+  unfold raises_constr, raises_args in R. unfold dict_open, dict_raises. cbn [fst snd].
+  destruct (k_args (constr_of td)) as [|o l]; [discriminate|].
+  destruct (optl (d_args d)) as [|a la]; [discriminate|]. cbn [forall2b existsb] in *.
+  apply andb_true_iff in C as [C _]. unfold arg_ok in C. unfold open_arg.
+  destruct (expected E h a) as [v| |]; [|reflexivity|discriminate].
+  apply val_eqb_eq in C. subst v. rewrite R. now rewrite orb_true_r.
+Qed.
+
+Lemma raising_list_excuses E h ds tds :
+  Forall2 (dict_rel E h) ds tds -> existsb dstate_raises tds = true ->
+  existsb (dict_open E) (map (pair h) ds) = true.
+Proof.
+  induction 1 as [|d td ds tds R _ IH]; cbn [existsb map]; intro H; [discriminate|].
+  apply orb_true_iff in H as [H|H].
+  - now rewrite (raising_dict_excuses E h d td R H).
+  - now rewrite (IH H), orb_true_r.
+Qed.
+
+Lemma raising_ents_excuse E h es tes :
+  Forall2 (ent_rel2 E h) es tes -> existsb dstate_raises (flat_map snd tes) = true ->
+  existsb (dict_open E) (map (pair h) (flat_map ent_dicts es)) = true.
+Proof.
+  induction 1 as [|e te es tes [_ R] _ IH]; cbn [flat_map]; intro H; [discriminate|].
+  rewrite existsb_app in H. rewrite map_app, existsb_app. apply orb_true_iff in H as [H|H].
+  - now rewrite (raising_list_excuses E h _ _ R H).
+  - now rewrite (IH H), orb_true_r.
+Qed.
+
 (* ---- populate_world_from_dict on any world -------------------------------------------------- *)
 Lemma populate_spec E h rest ds tps tes w :
   Forall2 (dict_rel E h) (proc_dicts ds) tps ->
@@ -545,8 +589,9 @@ Lemma populate_spec E h rest ds tps tes w :
   Forall (fun e => NoDup (map (class_serial E) (ent_dicts e))) (optl (w_ents ds)) ->
   ids_wf (optl (w_ents ds) ++ rest) (map fst (ws_ents w)) (ws_next w) = true ->
   NoDup (map fst (ws_ents w)) ->
-  exists lg X table nxt,
-    populate w (tps, tes) =
+  let lg := map constr_of tps ++ map constr_of (flat_map snd tes) in
+  exists X table nxt,
+    populate0 w (tps, tes) =
     Some (grown w lg (combine (map (class_serial E) (proc_dicts ds))
                               (zseq (Z.of_nat (length (ws_log w))) (length (proc_dicts ds))))
                 X nxt table []) /\
@@ -556,14 +601,14 @@ Lemma populate_spec E h rest ds tps tes w :
                (Z.of_nat (length (ws_log w))) (map obs_ent X) = Some table /\
     ids_wf rest (map fst (ws_ents w ++ X)) nxt = true.
 Proof.
-  intros TP TE HK ND HF HND Hids HKeys.
+  intros TP TE HK ND HF HND Hids HKeys lg. unfold lg. clear lg.
   assert (FP : Forall2 (fun t td => s_type td = TObj (NS (JRef KObj t) CProc))
                        (map (class_serial E) (proc_dicts ds)) tps).
   { clear - TP HK. induction TP as [|d td l tl [[H1 H2] _] _ IH]; cbn [map]; constructor.
     - rewrite H1. unfold ent_of. now rewrite (HK d (or_introl eq_refl)).
     - apply IH. intros x Hx. apply HK. now right. }
   pose proof (Forall2_length' _ _ _ TP) as LP.
-  unfold populate. cbn [fst snd]. rewrite (pop_procs_spec _ _ FP ND w HF).
+  unfold populate0. cbn [fst snd]. rewrite (pop_procs_spec _ _ FP ND w HF).
   rewrite <- grown_procs. rewrite <- LP.
   set (S := combine (map (class_serial E) (proc_dicts ds))
                     (zseq (Z.of_nat (length (ws_log w))) (length (proc_dicts ds)))).
@@ -575,7 +620,7 @@ Proof.
   { now rewrite E1, N1. }
   { now rewrite E1. }
   rewrite E1 in HN2, Hrest.
-  exists (map constr_of tps ++ map constr_of (flat_map snd tes)), X, table, nxt.
+  exists X, table, nxt.
   split; [|split; [|split; [exact HN2|split; [|exact Hrest]]]].
   - rewrite Hfold. unfold w1. rewrite grown_grown. now rewrite !app_nil_r.
   - unfold all_dicts. rewrite map_app.
@@ -654,6 +699,7 @@ Definition extends (E : env) (steps : list step) (rest : list edict) (w w' : wst
   exists lg S X nxt table,
     w' = grown w lg S X nxt table (exp_marks steps) /\
     forall2b (check_constr E) (all_hdicts steps) lg = true /\
+    existsb raises_constr lg = false /\
     map snd S = exp_procs steps (Z.of_nat (length (ws_log w))) /\
     map fst S = flat_map (step_ptypes E) steps /\
     NoDup (map fst (ws_ents w ++ X)) /\
@@ -664,17 +710,18 @@ Definition extends (E : env) (steps : list step) (rest : list edict) (w w' : wst
 Lemma extends_app E s1 r1 s2 rest w w1 w2 :
   extends E s1 r1 w w1 -> extends E s2 rest w1 w2 -> extends E (s1 ++ s2) rest w w2.
 Proof.
-  intros [lg1 [S1 [X1 [n1 [t1 [-> [C1 [P1 [F1 [N1 [I1 _]]]]]]]]]]]
-         [lg2 [S2 [X2 [n2 [t2 [-> [C2 [P2 [F2 [N2 [I2 R2]]]]]]]]]]].
+  intros [lg1 [S1 [X1 [n1 [t1 [-> [C1 [B1 [P1 [F1 [N1 [I1 _]]]]]]]]]]]]
+         [lg2 [S2 [X2 [n2 [t2 [-> [C2 [B2 [P2 [F2 [N2 [I2 R2]]]]]]]]]]]].
   assert (LL : Z.of_nat (length (ws_log (grown w lg1 S1 X1 n1 t1 (exp_marks s1))))
                = Z.of_nat (length (ws_log w)) + Z.of_nat (length (all_hdicts s1))).
   { unfold grown. cbn [ws_log]. rewrite app_length, <- (forall2b_length _ _ _ C1). lia. }
   assert (EE : ws_ents (grown w lg1 S1 X1 n1 t1 (exp_marks s1)) = ws_ents w ++ X1) by reflexivity.
   rewrite LL in P2, I2. rewrite EE, <- app_assoc in N2, R2.
   exists (lg1 ++ lg2), (S1 ++ S2), (X1 ++ X2), n2, (t1 ++ t2).
-  split; [|split; [|split; [|split; [|split; [exact N2|split; [|exact R2]]]]]].
+  split; [|split; [|split; [|split; [|split; [|split; [exact N2|split; [|exact R2]]]]]]].
   - rewrite grown_grown. unfold exp_marks. now rewrite flat_map_app.
   - unfold all_hdicts. rewrite flat_map_app. now apply forall2b_app.
+  - now rewrite existsb_app, B1, B2.
   - now rewrite map_app, exp_procs_app, P1, P2.
   - now rewrite map_app, flat_map_app, F1, F2.
   - rewrite flat_map_app, map_app. apply (spec_items_app E _ _ _ _ _ _ _ I1).
@@ -745,13 +792,21 @@ Proof.
     2: { unfold all_dicts. now rewrite map_app, existsb_app, TP. }
     destruct (mapM (map_ent (tfun E h)) (optl (w_ents ds))) as [tes|].
     2: { unfold all_dicts. now rewrite map_app, existsb_app, TE, orb_true_r. }
+    unfold populate. cbn [fst snd]. rewrite existsb_app.
+    destruct (existsb dstate_raises tps) eqn:RP.
+    { cbn [orb]. unfold all_dicts. now rewrite map_app, existsb_app, (raising_list_excuses E h _ _ TP RP). }
+    destruct (existsb dstate_raises (flat_map snd tes)) eqn:RE.
+    { cbn [orb]. unfold all_dicts. now rewrite map_app, existsb_app, (raising_ents_excuse E h _ _ TE RE), orb_true_r. }
+    cbn [orb].
     destruct (populate_spec E h rest ds tps tes w TP TE KP ND HF NE Hids HK)
-      as [lg [X [table [nxt [Hpop [Hchk [HN [Hsp Hrest]]]]]]]].
+      as [X [table [nxt [Hpop [Hchk [HN [Hsp Hrest]]]]]]].
     rewrite Hpop.
-    exists lg, (combine (map (class_serial E) (proc_dicts ds))
+    exists (map constr_of tps ++ map constr_of (flat_map snd tes)), (combine (map (class_serial E) (proc_dicts ds))
                         (zseq (Z.of_nat (length (ws_log w))) (length (proc_dicts ds)))), X, nxt, table.
     split; [now rewrite SM|]. split.
     { unfold all_hdicts. cbn [flat_map]. now rewrite app_nil_r, SD. }
+    split.
+    { now rewrite existsb_app, !raises_map, RP, RE. }
     split.
     { rewrite map_snd_combine by (now rewrite map_length, zseq_length).
       cbn [exp_procs]. now rewrite SZ, app_nil_r. }
@@ -839,7 +894,7 @@ Proof.
                   (fun t Ht => HF t (in_or_app _ _ _ (or_introl Ht))) Hids HK) as S1.
     cbn [foldM]. unfold has_open, all_hdicts. cbn [flat_map]. rewrite existsb_app.
     destruct (run_step E w s) as [w1|]; [|now rewrite S1].
-    pose proof S1 as [lg [S [X [nxt [table [Ew [C1 [P1 [F1 [N1 [I1 R1]]]]]]]]]]].
+    pose proof S1 as [lg [S [X [nxt [table [Ew [C1 [B1 [P1 [F1 [N1 [I1 R1]]]]]]]]]]]].
     assert (F1' : map fst (ws_sorted w1) = map fst (ws_sorted w) ++ step_ptypes E s).
     { rewrite Ew. unfold grown. cbn [ws_sorted]. rewrite map_app, F1. cbn [flat_map].
       now rewrite app_nil_r. }
@@ -1133,7 +1188,7 @@ Proof.
   specialize (R (fun t _ HI => HI) Hids (NoDup_nil _)).
   unfold model, load.
   destruct (foldM (run_step E) (w_start (init_enabled k)) (steps_of k)) as [w'|]; [|exact R].
-  destruct R as [lg [S [X [nxt [table [-> [C1 [P1 [_ [N1 [I1 _]]]]]]]]]]].
+  destruct R as [lg [S [X [nxt [table [-> [C1 [B1 [P1 [_ [N1 [I1 _]]]]]]]]]]]].
   cbn [w_start ws_log ws_ents length app] in P1, N1, I1. change (Z.of_nat 0) with 0 in P1, I1.
   unfold spec_ok, observe. cbn [o_constr o_procs o_ents o_enabled o_cbs o_marks].
   rewrite (cbs_final (via_handle k) (init_enabled k) lg S X nxt table (exp_marks (steps_of k))
@@ -1146,7 +1201,7 @@ Proof.
     - rewrite dl_log, dl_sorted, dl_ents, dl_enabled, dl_marks. unfold w'. cbn. auto.
     - unfold w'. cbn. auto. }
   destruct Q as [-> [-> [-> [-> ->]]]].
-  rewrite C1, P1, zlist_eqb_refl, eqb_reflx, marks_eqb_refl. cbn [andb].
+  rewrite C1, B1, P1, zlist_eqb_refl, eqb_reflx, marks_eqb_refl. cbn [andb negb].
   rewrite map_map. cbn [fst].
   replace (map (fun x : val * list (Z * Z) => fst x) X) with (map fst X) by reflexivity.
   rewrite (proj2 (vnodup_NoDup _) N1).
@@ -1155,21 +1210,28 @@ Proof.
   apply cbs_ok_model. exact (proj1 (spec_items_insts E _ _ _ _ I1)).
 Qed.
 
-Lemma forall2b_impl {A B} (f g : A -> B -> bool) :
-  (forall x y, f x y = true -> g x y = true) ->
-  forall l m, forall2b f l m = true -> forall2b g l m = true.
+Lemma forall2b_impl_in {A B} (f g : A -> B -> bool) (m : list B) :
+  (forall x y, In y m -> f x y = true -> g x y = true) ->
+  forall l, forall2b f l m = true -> forall2b g l m = true.
 Proof.
-  intros H. induction l as [|x l IH]; intros [|y m] F; cbn [forall2b] in *; try discriminate;
+  induction m as [|y m IH]; intros H [|x l] F; cbn [forall2b] in *; try discriminate;
     [reflexivity|].
-  apply andb_true_iff in F as [F1 F2]. now rewrite (H _ _ F1), (IH _ F2).
+  apply andb_true_iff in F as [F1 F2]. rewrite (H x y (or_introl eq_refl) F1). cbn [andb].
+  apply IH; [|exact F2]. intros x' y' Hy. apply H. now right.
 Qed.
 
 Lemma accepts_holds c : wf_b c = true -> known_b c = false -> accepts c = true -> holds c.
 Proof.
-  destruct c as [E k obs]. unfold wf_b, known_b, accepts, holds, holds_b. cbn [c_env c_load c_obs].
-  intros Hwf Hk. apply forall2b_impl. intros i [j o]. unfold accepts1, load_ok. cbn [fst snd].
+  destruct c as [E loads]. unfold wf_b, known_b, accepts, holds, holds_b. cbn [c_env c_loads].
+  intros Hwf Hk. rewrite forallb_forall in Hwf.
+  apply forall2b_impl_in. intros i [k [j o]] Hin. unfold accepts1, load_ok. cbn [fst snd].
   intro H. apply andb_true_iff in H as [H1 H2]. rewrite H1. cbn [andb].
-  apply outcome_eqb_eq in H2. subst o. now apply model_holds.
+  apply outcome_eqb_eq in H2. subst o. apply model_holds.
+  - exact (Hwf _ Hin).
+  - destruct (known_k E k) eqn:K; [|reflexivity].
+    assert (existsb (fun r : load_kind * (Z * outcome) => known_k E (fst r)) loads = true).
+    { apply existsb_exists. eexists. split; [exact Hin|exact K]. }
+    congruence.
 Qed.
 
 (* every single load of a case satisfies the specification *)
@@ -1184,12 +1246,13 @@ Proof.
   - replace (s + Z.of_nat (S n)) with (s + 1 + Z.of_nat n) by lia. now apply IH.
 Qed.
 
-Lemma holds_every_load c n i o :
-  holds c -> nth_error (c_obs c) n = Some (i, o) ->
-  i = Z.of_nat n /\ holds1 (c_env c) (c_load c) o = true.
+Lemma holds_every_load c n k i o :
+  holds c -> nth_error (c_loads c) n = Some (k, (i, o)) ->
+  i = Z.of_nat n /\ holds1 (c_env c) k o = true.
 Proof.
   unfold holds, holds_b. intros H Hn.
-  pose proof (forall2b_zseq_nth _ _ 0 n (i, o) H Hn) as L. unfold load_ok in L. cbn [fst snd] in L.
+  pose proof (forall2b_zseq_nth _ _ 0 n (k, (i, o)) H Hn) as L. unfold load_ok in L.
+  cbn [fst snd] in L.
   apply andb_true_iff in L as [L1 L2]. apply Z.eqb_eq in L1. split; [lia|exact L2].
 Qed.
 
@@ -1214,7 +1277,7 @@ Proof.
   unfold spec_ok. intro S.
   apply andb_true_iff in S as [S _]. apply andb_true_iff in S as [S _].
   apply andb_true_iff in S as [S _]. apply andb_true_iff in S as [S _].
-  now apply andb_true_iff in S as [S _].
+  apply andb_true_iff in S as [S _]. now apply andb_true_iff in S as [S _].
 Qed.
 
 Lemma holds_constr E k w j hd :
@@ -1295,6 +1358,32 @@ Proof.
   - intros cb0 Hc. specialize (S2 cb0 Hc). apply existsb_exists in S2 as [x [Hx Eq]].
     exists x. split; [exact Hx|now apply Z.eqb_eq].
 Qed.
+
+(* error paths: a loaded world was built by no raising constructor and from
+   no reference that names nothing; an aborted load has a cause in its description *)
+Lemma holds_no_raise E k w :
+  holds1 E k (OOk w) = true -> existsb raises_constr (o_constr w) = false.
+Proof.
+  intros H. pose proof (holds_spec_ok E k w H) as S. unfold spec_ok in S.
+  apply andb_true_iff in S as [S _]. apply andb_true_iff in S as [S _].
+  apply andb_true_iff in S as [S _]. apply andb_true_iff in S as [S _].
+  apply andb_true_iff in S as [S _].
+  apply andb_true_iff in S as [_ S]. now apply negb_true_iff in S.
+Qed.
+
+Lemma holds_no_dangling E k w j h d i a :
+  holds1 E k (OOk w) = true -> nth_error (all_hdicts (steps_of k)) j = Some (h, d) ->
+  nth_error (optl (d_args d)) i = Some a -> expected E h a <> MustFail.
+Proof.
+  intros H Hd Ha Hm. destruct (holds_constr E k w j (h, d) H Hd) as [kc [Hk C]].
+  unfold check_constr in C. destruct (slookup (d_type d) (c_ns E)); [|discriminate].
+  apply andb_true_iff in C as [C _]. apply andb_true_iff in C as [_ C].
+  destruct (forall2b_nth _ _ _ _ _ C Ha) as [o [_ Hok]]. unfold arg_ok in Hok.
+  rewrite Hm in Hok. discriminate.
+Qed.
+
+Lemma abort_has_cause E k : holds1 E k OErr = true -> has_open E (steps_of k) = true.
+Proof. intro H. exact H. Qed.
 
 (* the three ways of loading, spelled out *)
 Lemma file_dicts ds :
